@@ -122,7 +122,8 @@ def _case(draw, tier):
         _maybe_second_refinement(draw, ctx, nv, root, budget)
     if budget[0] > 0 and chance(draw, 2, 3):
         root["alt"] = _tree(draw, ctx, nv, 2, budget, extra)
-    return {"ents": recs, "doms": doms, "vars": vars_, "tree": root, "dom_kind": "list", "nv": nv, "extra": extra,
+    abandon_first = draw(st.sampled_from([0, 0, 0, 1, 2, 3]))
+    return {"abandon_first": abandon_first, "ents": recs, "doms": doms, "vars": vars_, "tree": root, "dom_kind": "list", "nv": nv, "extra": extra,
             "alt_first": draw(st.booleans()), "sibling_alts": draw(st.booleans()),
             "quant": draw(st.sampled_from(["an", "infer"])), "split_base": draw(st.booleans())}
 
@@ -270,6 +271,14 @@ def _evaluate(case, objs, nodes, times=1):
     with rule_mode(query):
         _emit(case["tree"], views, V, case, is_root=True)
     runs = []
+    if case.get("abandon_first"):
+        # an evaluation that the consumer gives up after k conclusions comes first (what the next one returns must not
+        # depend on it)
+        it_ = query.evaluate()
+        for _ in range(case["abandon_first"]):
+            if next(it_, _END) is _END:
+                break
+        it_.close()
     for _ in range(times):
         # the instances inferred by the previous evaluation are dropped from the registry first (conftest idiom): the
         # target variable has no domain, so they would otherwise be candidates for it
@@ -278,6 +287,9 @@ def _evaluate(case, objs, nodes, times=1):
         Variable._cache_.clear()
         runs.append(list(query.evaluate()))
     return runs
+
+
+_END = object()
 
 
 def check(case) -> Outcome:
@@ -340,6 +352,10 @@ def check(case) -> Outcome:
             feats.append("alt_chain")
     if uses_extra:
         feats.append("branch_joins_extra_variable")
+        if case.get("abandon_first"):
+            feats.append("abandoned_first_and_branch_joins_extra_variable")      # KF-55
+    if case.get("abandon_first"):
+        feats.append("after_abandoned_evaluation")
     classes = list(feats) + [f"nodes{min(len(nodes), 7)}", f"vars{nv}", case["quant"],
                              "alt_first" if case["alt_first"] else "ref_first",
                              "sibling_alts" if case["sibling_alts"] else "nested_alts"]
